@@ -10,3 +10,6 @@ CHECKS["C12"] = checks_misc.c12
 CHECKS["C14"] = checks_misc.c14
 import checks_tt
 CHECKS["C15"] = checks_tt.c15
+import checks_search
+for _p in ("C06", "C07", "C08"):
+    CHECKS[_p] = checks_search.run
